@@ -47,11 +47,15 @@ impl Kind { fn is_gpos(self) -> bool { matches!(self, Kind::SinglePos | Kind::Pa
 #[derive(Clone, Debug)]
 pub struct Lookup { pub name: String, pub kind: Kind, pub flag: Flag, pub rules: Vec<Rule>,
     /// Some(feature index): not a named block but a run of rules written directly in that feature's body
-    pub inline_in: Option<usize> }
+    pub inline_in: Option<usize>,
+    /// named block declared with useExtension
+    pub ext: bool }
 #[derive(Clone, Debug)]
 pub struct Feature { pub tag: &'static str, pub lookups: Vec<usize> }
 #[derive(Clone, Debug)]
-pub struct Prog { pub langsys: Vec<(&'static str, &'static str)>, pub lookups: Vec<Lookup>, pub features: Vec<Feature> }
+pub struct Prog { pub langsys: Vec<(&'static str, &'static str)>, pub lookups: Vec<Lookup>, pub features: Vec<Feature>,
+    /// an aalt feature naming these features (its generated lookups go in front of every other GSUB lookup; the feature itself is not applied by the check)
+    pub aalt: Vec<&'static str> }
 
 fn class_of(g: G) -> u16 { if BASES.contains(&g) { 1 } else if LIGS.contains(&g) { 2 } else if MARKS.contains(&g) { 3 } else { 0 } }
 
@@ -173,7 +177,8 @@ pub fn gen_prog(g: &mut Gen) -> Prog {
         let flag = gen_flag(&mut lg, false);
         let rules = gen_rules(kind, &mut lg, &lookups);
         if rules.is_empty() { continue; }
-        lookups.push(Lookup { name: format!("L{li}"), kind, flag, rules, inline_in: None });
+        let ext = lg.chance(1, 4);
+        lookups.push(Lookup { name: format!("L{li}"), kind, flag, rules, inline_in: None, ext });
     }
     // features: every lookup is referenced by at least one feature, GSUB and GPOS lookups by different tags
     let sub_tags = ["liga", "calt", "ss01", "ccmp"]; let pos_tags = ["kern", "cpsp", "dist"];
@@ -202,12 +207,14 @@ pub fn gen_prog(g: &mut Gen) -> Prog {
             let rules = gen_rules(kind, &mut lg, &lookups);
             if rules.is_empty() { continue; }
             prev_flag = Some(flag.clone());
-            lookups.push(Lookup { name: format!("inline{fi}_{k}"), kind, flag, rules, inline_in: Some(fi) });
+            lookups.push(Lookup { name: format!("inline{fi}_{k}"), kind, flag, rules, inline_in: Some(fi), ext: false });
             added.push(lookups.len() - 1);
         }
         features[fi].lookups.extend(added);
     }
-    Prog { langsys, lookups, features }
+    let mut aalt = vec![];
+    if g.chance(1, 3) { for f in &features { if !lookups[f.lookups[0]].kind.is_gpos() && g.chance(2, 3) { aalt.push(f.tag); } } }
+    Prog { langsys, lookups, features, aalt }
 }
 
 // ------------------------------------------------------------------------------- FEA text
@@ -258,10 +265,11 @@ pub fn to_fea(p: &Prog) -> String {
     for (n, m) in ATTACH_CLASSES.iter().chain(FILTER_SETS) { let _ = writeln!(s, "{n} = {};", cls(m)); }
     let _ = writeln!(s, "table GDEF {{\n  GlyphClassDef {}, {}, {}, ;\n}} GDEF;", cls(&BASES.collect::<Vec<_>>()), cls(&LIGS.collect::<Vec<_>>()), cls(&MARKS.collect::<Vec<_>>()));
     for l in p.lookups.iter().filter(|l| l.inline_in.is_none()) {
-        let _ = writeln!(s, "lookup {} {{", l.name);
+        let _ = writeln!(s, "lookup {} {}{{", l.name, if l.ext { "useExtension " } else { "" });
         write_body(&mut s, p, l, false);
         let _ = writeln!(s, "}} {};", l.name);
     }
+    if !p.aalt.is_empty() { let _ = writeln!(s, "feature aalt {{\n{}}} aalt;", p.aalt.iter().map(|t| format!("  feature {t};\n")).collect::<String>()); }
     for f in &p.features {
         let _ = writeln!(s, "feature {} {{", f.tag);
         for l in f.lookups.iter().filter(|l| p.lookups[**l].inline_in.is_some()) { write_body(&mut s, p, &p.lookups[*l], true); }
@@ -416,7 +424,9 @@ pub fn check_prog(rep: &mut CaseReport, p: &Prog, g: &mut Gen, n_random: usize) 
     for _ in 0..n_random { let n = 3 + g.below(6); strings.push((0..n).map(|_| m[g.below(m.len())]).collect()); }
     let mut changed = false;
     for (script, lang) in &p.langsys {
-        let sub = match layout.lookups_for(Tbl::Gsub, script, lang, &[], None) { Ok(l) => l, Err(e) => { rep.fail("gsub-unreadable", e); return; } };
+        // every feature of the program is on; the aalt feature (whose lookups only shift the others' indices) is not
+        let tags: Vec<&str> = p.features.iter().map(|f| f.tag).collect();
+        let sub = match layout.lookups_for(Tbl::Gsub, script, lang, &[], Some(&tags)) { Ok(l) => l, Err(e) => { rep.fail("gsub-unreadable", e); return; } };
         let posl = match layout.lookups_for(Tbl::Gpos, script, lang, &[], None) { Ok(l) => l, Err(e) => { rep.fail("gpos-unreadable", e); return; } };
         for s in &strings {
             rep.evals += 1;
@@ -435,6 +445,9 @@ pub fn check_prog(rep: &mut CaseReport, p: &Prog, g: &mut Gen, n_random: usize) 
     for k in kinds { rep.class(format!("has-{k}")); }
     if p.lookups.iter().any(|l| l.flag != Flag::default()) { rep.class("has-lookupflag"); }
     if p.lookups.iter().any(|l| l.inline_in.is_some()) { rep.class("has-rules-in-feature-body"); }
+    if p.lookups.iter().any(|l| l.ext) { rep.class("has-useExtension-lookup"); }
+    if !p.aalt.is_empty() { rep.class("has-aalt-feature"); }
+    if !p.aalt.is_empty() && p.lookups.iter().any(|l| l.ext && l.kind == Kind::ChainSub) { rep.class("aalt-with-contextual-extension-lookup"); }
     if rep.failures.is_empty() { rep.artifacts.clear(); }
 }
 
@@ -451,11 +464,157 @@ pub fn check(_ctx: &Ctx, genome: &[u16]) -> CaseReport {
     rep
 }
 
-pub fn parts() -> Vec<Part> {
-    vec![Part { name: "programs", genome_len: 1400, cases_quick: 4000, cases_thorough: 150_000, threads: 14, max_shrink_iters: 400, check: Box::new(check), remote: None }]
+// ------------------------------------------------------------------------------- script / language statements
+/// One feature block: rule groups before any statement, then script sections each with language sections.
+/// A rule group is one single substitution `sub <src> by <dst>;` (inline, or a reference to a named lookup) whose
+/// source glyph is unique inside the feature, so that every group's presence for a language system is observable.
+#[derive(Clone, Debug)]
+pub struct LsFeature { pub tag: &'static str, pub r0: Vec<usize>, pub sections: Vec<LsSection> }
+#[derive(Clone, Debug)]
+pub struct LsSection { pub script: Option<&'static str>, pub groups: Vec<usize>, pub langs: Vec<(&'static str, bool, Vec<usize>)> }
+#[derive(Clone, Debug)]
+pub struct LsProg { pub declared: Vec<(&'static str, &'static str)>, pub features: Vec<LsFeature>, /* group -> (src, dst, named lookup?) */ pub groups: Vec<(G, G, bool)> }
+
+pub fn gen_ls(g: &mut Gen) -> LsProg {
+    let declared: Vec<(&str, &str)> = match g.below(3) { 0 => vec![("DFLT", "dflt")], 1 => vec![("DFLT", "dflt"), ("latn", "dflt")], _ => vec![("DFLT", "dflt"), ("latn", "dflt"), ("latn", "TRK ")] };
+    let tags = ["liga", "calt", "ss01", "ccmp"];
+    let n_feat = 2 + g.below(3);
+    let mut groups: Vec<(G, G, bool)> = vec![];
+    let mut features = vec![];
+    for fi in 0..n_feat {
+        let mut fg = g.fork(40);
+        let mut k = 0usize; // next source glyph inside this feature: a..h then x y z w
+        let srcs: Vec<G> = (1..9).chain(19..23).collect();
+        let mut new_groups = |fg: &mut Gen, n: usize, groups: &mut Vec<(G, G, bool)>| -> Vec<usize> {
+            let mut v = vec![];
+            for _ in 0..n { if k >= srcs.len() { break; } let dst = 9 + fg.below(4); let named = fg.chance(1, 3); groups.push((srcs[k], dst, named)); k += 1; v.push(groups.len() - 1); }
+            v
+        };
+        // feature 0: plain rules only, so that every declared language system exists in the tables
+        if fi == 0 { let n = 1 + fg.below(2); let r0 = new_groups(&mut fg, n, &mut groups); features.push(LsFeature { tag: tags[fi], r0, sections: vec![] }); continue; }
+        // a language statement with no script statement before it in its block, and no rules before it
+        if fg.chance(1, 4) {
+            let lang = *fg.pick(&["TRK ", "DEU "]);
+            let n = 1 + fg.below(2);
+            let gs = new_groups(&mut fg, n, &mut groups);
+            features.push(LsFeature { tag: tags[fi], r0: vec![], sections: vec![LsSection { script: None, groups: vec![], langs: vec![(lang, false, gs)] }] });
+            continue;
+        }
+        let n0 = fg.below(3);
+        let r0 = new_groups(&mut fg, n0, &mut groups);
+        let mut scripts: Vec<&'static str> = vec!["latn", "grek"];
+        if fg.chance(1, 2) { scripts.swap(0, 1); }
+        let n_sec = 1 + fg.below(2);
+        let mut sections = vec![];
+        for sc in scripts.into_iter().take(n_sec) {
+            let n = 1 + fg.below(2);
+            let gs = new_groups(&mut fg, n, &mut groups);
+            let mut langs = vec![];
+            let mut pool: Vec<&'static str> = vec!["TRK ", "DEU "];
+            // a declared language of this script always gets its own language statement
+            let must_trk = declared.contains(&(sc, "TRK "));
+            let n_lang = if must_trk { 1 + fg.below(2) } else { fg.below(3) };
+            if !must_trk && fg.chance(1, 2) { pool.swap(0, 1); }
+            for l in pool.into_iter().take(n_lang) { let excl = fg.chance(1, 3); let n = 1 + fg.below(2); let lg = new_groups(&mut fg, n, &mut groups); if !lg.is_empty() { langs.push((l, excl, lg)); } }
+            if !gs.is_empty() { sections.push(LsSection { script: Some(sc), groups: gs, langs }); }
+        }
+        features.push(LsFeature { tag: tags[fi], r0, sections });
+    }
+    LsProg { declared, features, groups }
 }
-pub const RULE: &str = "feature files generated from a grammar over 26 glyphs with GDEF classes (bases, ligatures, marks, unclassified): 1-3 language systems, 2-6 named lookups each homogeneous in rule type and flags (GSUB single glyph / class->glyph / class->class, multiple, alternate, ligature with 2-3 components incl. marks, chaining contextual with 0-2 backtrack and lookahead items, 1-2 marked inputs, lookup references to single-substitution lookups or an inline single target, and ignore rules; glyph classes partly written as ranges; GPOS single, pair with glyph pairs before class pairs) with lookupflag IgnoreMarks / IgnoreLigatures / IgnoreBaseGlyphs / MarkAttachmentType / UseMarkFilteringSet, features made of lookup references. Input strings: all strings up to length 2 (3 when at most 9 glyphs are mentioned) over the glyphs the program mentions plus the marks, and 600 random strings of length 3-8. Reference: interpreter of the source rules (lookups in declaration order, first matching rule per position, ligatures longest first, flags via GDEF classes, contextual rules applying their nested lookups at the marked positions). Subject: fea_rs compile_binary output applied by the independent GSUB/GPOS interpreter for every registered script/language. non-trivial = at least 2 lookup types and some string changed by shaping";
-pub const ASSUMPTIONS: &[&str] = &["inside a lookup single / multiple / alternate targets and ligature sequences are unique, class pairs come after glyph pairs, first classes are pairwise equal or disjoint and second classes equal or disjoint, so the source semantics do not depend on subtable layout", "every feature consists of lookup references only and is registered for every language system (no script / language statements)", "alternate substitution is compared through its first alternate", "nested lookups of contextual rules are single substitutions (length preserving)"];
+
+pub fn ls_to_fea(p: &LsProg) -> String {
+    let mut s = String::new();
+    for (sc, la) in &p.declared { let _ = writeln!(s, "languagesystem {sc} {};", la.trim()); }
+    for (i, (a, b, named)) in p.groups.iter().enumerate() { if *named { let _ = writeln!(s, "lookup G{i} {{\n  sub {} by {};\n}} G{i};", GLYPHS[*a], GLYPHS[*b]); } }
+    let rule = |s: &mut String, i: usize| { let (a, b, named) = p.groups[i]; if named { let _ = writeln!(s, "  lookup G{i};"); } else { let _ = writeln!(s, "  sub {} by {};", GLYPHS[a], GLYPHS[b]); } };
+    for f in &p.features {
+        let _ = writeln!(s, "feature {} {{", f.tag);
+        for i in &f.r0 { rule(&mut s, *i); }
+        for sec in &f.sections {
+            if let Some(sc) = sec.script { let _ = writeln!(s, "  script {sc};"); }
+            for i in &sec.groups { rule(&mut s, *i); }
+            for (l, excl, gs) in &sec.langs { let _ = writeln!(s, "  language {}{};", l.trim(), if *excl { " exclude_dflt" } else { "" }); for i in gs { rule(&mut s, *i); } }
+        }
+        let _ = writeln!(s, "}} {};", f.tag);
+    }
+    s
+}
+
+/// the rule groups each feature registers for each language system (feature-file specification 4.b.i-iii):
+/// rules before any script statement go to every declared language system; `script S` continues with S/dflt
+/// (which keeps what it already has); `language L` starts from the current script's dflt rules so far unless
+/// exclude_dflt, replacing what L had; a language statement with no script before it belongs to script DFLT
+pub fn ls_reference(p: &LsProg) -> Vec<BTreeMap<(String, String), Vec<usize>>> {
+    p.features.iter().map(|f| {
+        let mut reg: BTreeMap<(String, String), Vec<usize>> = BTreeMap::new();
+        for (sc, la) in &p.declared { if !f.r0.is_empty() { reg.insert((sc.to_string(), la.to_string()), f.r0.clone()); } }
+        for sec in &f.sections {
+            let script = sec.script.unwrap_or("DFLT").to_string();
+            if sec.script.is_some() { reg.entry((script.clone(), "dflt".into())).or_default().extend(sec.groups.iter().copied()); }
+            for (l, excl, gs) in &sec.langs {
+                let mut base = if *excl { vec![] } else { reg.get(&(script.clone(), "dflt".to_string())).cloned().unwrap_or_default() };
+                base.extend(gs.iter().copied());
+                reg.insert((script.clone(), l.to_string()), base);
+            }
+        }
+        reg.retain(|_, v| !v.is_empty());
+        reg
+    }).collect()
+}
+
+pub fn check_ls(_ctx: &Ctx, genome: &[u16]) -> CaseReport {
+    let mut rep = CaseReport::default();
+    let mut g = Gen::new(genome);
+    let p = gen_ls(&mut g);
+    let fea = ls_to_fea(&p);
+    rep.key = fnv_str(&fea);
+    rep.sample = Some(json!({"fea": fea}));
+    rep.artifacts.push(("root.fea".into(), fea.clone().into_bytes()));
+    let bytes = match compile(&fea) { Ok(b) => b, Err(e) => { rep.fail(if e.starts_with("panic") { "compiler-panics-on-generated-program" } else { "generated-program-rejected" }, e.chars().take(1500).collect::<String>()); return rep; } };
+    let font = match Font::new(&bytes) { Ok(f) => f, Err(e) => { rep.fail("output-unparseable", e); return rep; } };
+    let layout = match Layout::new(&font) { Ok(l) => l, Err(e) => { rep.fail("layout-tables-unreadable", e); return rep; } };
+    let reg = ls_reference(&p);
+    // language systems the file registers, over all features; resolution as a shaper does it
+    let systems: BTreeSet<(String, String)> = reg.iter().flat_map(|r| r.keys().cloned()).collect();
+    let resolve = |script: &str, lang: &str| -> Option<(String, String)> {
+        let sc = if systems.iter().any(|(s, _)| s == script) { script } else { "DFLT" };
+        if systems.contains(&(sc.to_string(), lang.to_string())) { Some((sc.to_string(), lang.to_string())) } else if systems.contains(&(sc.to_string(), "dflt".to_string())) { Some((sc.to_string(), "dflt".to_string())) } else { None }
+    };
+    for (fi, f) in p.features.iter().enumerate() {
+        let mine: Vec<usize> = f.r0.iter().copied().chain(f.sections.iter().flat_map(|s| s.groups.iter().copied().chain(s.langs.iter().flat_map(|(_, _, g)| g.iter().copied())))).collect();
+        for script in ["DFLT", "latn", "grek", "cyrl"] { for lang in ["dflt", "TRK ", "DEU ", "NLD "] {
+            let want_groups: Vec<usize> = resolve(script, lang).and_then(|k| reg[fi].get(&k).cloned()).unwrap_or_default();
+            let lk = match layout.lookups_for(Tbl::Gsub, script, lang, &[], Some(&[f.tag])) { Ok(l) => l, Err(e) => { rep.fail("gsub-unreadable", e); return rep; } };
+            for gi in &mine {
+                rep.evals += 1;
+                let (src, dst, _) = p.groups[*gi];
+                let want = if want_groups.contains(gi) { dst } else { src };
+                let got = match layout.gsub_apply(&lk, &[src as u16]) { Ok(v) => v, Err(e) => { rep.fail("gsub-evaluation-failed", e); return rep; } };
+                if got != vec![want as u16] {
+                    rep.fail("feature-rules-registered-for-the-wrong-language-systems", format!("feature {} under script {script} language {lang}: [{}] -> compiled tables give [{}], the script / language statements give [{}]", f.tag, GLYPHS[src], names(&got.iter().map(|x| *x as usize).collect::<Vec<_>>()), GLYPHS[want]));
+                    return rep;
+                }
+            }
+        } }
+    }
+    rep.nontrivial = p.features.iter().any(|f| !f.sections.is_empty());
+    rep.class(format!("declared-systems={}", p.declared.len()));
+    if p.features.iter().any(|f| f.sections.iter().any(|s| s.script.is_none())) { rep.class("language-statement-without-script"); }
+    if p.features.iter().any(|f| f.sections.iter().any(|s| s.langs.iter().any(|l| l.1))) { rep.class("exclude-dflt"); }
+    if p.features.iter().any(|f| f.sections.iter().any(|s| s.script == Some("grek"))) { rep.class("undeclared-script"); }
+    if p.features.iter().any(|f| f.sections.len() >= 2) { rep.class("two-script-sections"); }
+    if p.groups.iter().any(|g| g.2) { rep.class("named-lookup-references"); }
+    rep.artifacts.clear();
+    rep
+}
+
+pub fn parts() -> Vec<Part> {
+    vec![Part { name: "language-systems", genome_len: 220, cases_quick: 3000, cases_thorough: 200_000, threads: 14, max_shrink_iters: 400, check: Box::new(check_ls), remote: None },
+         Part { name: "programs", genome_len: 1400, cases_quick: 4000, cases_thorough: 150_000, threads: 14, max_shrink_iters: 400, check: Box::new(check), remote: None }]
+}
+pub const RULE: &str = "feature files generated from a grammar over 26 glyphs with GDEF classes (bases, ligatures, marks, unclassified): 1-3 language systems, 2-6 named lookups each homogeneous in rule type and flags (GSUB single glyph / class->glyph / class->class, multiple, alternate, ligature with 2-3 components incl. marks, chaining contextual with 0-2 backtrack and lookahead items, 1-2 marked inputs, lookup references to single-substitution lookups or an inline single target, and ignore rules; glyph classes partly written as ranges; GPOS single, pair with glyph pairs before class pairs) with lookupflag IgnoreMarks / IgnoreLigatures / IgnoreBaseGlyphs / MarkAttachmentType / UseMarkFilteringSet, features made of lookup references and runs of rules in the feature body; a quarter of the named lookups declared useExtension; sometimes an aalt feature naming some of the features (its lookups are spliced in front of all others; the aalt feature itself is not applied). Input strings: all strings up to length 2 (3 when at most 9 glyphs are mentioned) over the glyphs the program mentions plus the marks, and 600 random strings of length 3-8. Reference: interpreter of the source rules (lookups in declaration order, first matching rule per position, ligatures longest first, flags via GDEF classes, contextual rules applying their nested lookups at the marked positions). Subject: fea_rs compile_binary output applied by the independent GSUB/GPOS interpreter for every registered script/language. non-trivial = at least 2 lookup types and some string changed by shaping. Part language-systems: 2-4 features over 1-3 declared language systems (DFLT dflt; latn dflt; latn TRK) whose bodies hold rule groups (one single substitution each, inline or by lookup reference, source glyph unique in the feature) before any statement, after script statements (latn, and grek which is never declared) and after language statements (TRK, DEU; with and without exclude_dflt), plus features that start with a language statement and have no script statement; reference = registration model of the specification (4.b.i-iii); every feature is queried alone under 4 scripts x 4 languages (declared, mentioned and never mentioned ones, resolved as a shaper does: unknown script -> DFLT, unknown language -> the script's default) and each group's source glyph must be substituted exactly when the model registers the group for the resolved system";
+pub const ASSUMPTIONS: &[&str] = &["inside a lookup single / multiple / alternate targets and ligature sequences are unique, class pairs come after glyph pairs, first classes are pairwise equal or disjoint and second classes equal or disjoint, so the source semantics do not depend on subtable layout", "part programs: every feature is registered for every declared language system (script / language statements are the subject of part language-systems)", "part language-systems: a language declared by languagesystem always gets a language statement in a feature that has a script statement for its script, and a feature starting with a language statement has no rules before it (the two points where fontTools and the specification text can be read differently)", "the aalt feature is generated but never applied: which alternates it collects is not modelled", "alternate substitution is compared through its first alternate", "nested lookups of contextual rules are single substitutions (length preserving)"];
 
 /// stored regression cases: feature text + input strings + the result the source rules give (names, x advances)
 pub fn check_literal(_ctx: &Ctx, v: &serde_json::Value) -> CaseReport {
